@@ -2,11 +2,14 @@
      pser <id> <cap_bytes> <fill> tokens...   -> like `ser`, answered by target_ser TgPy (struct.pack('<e') rounds half to even)
      tief <id> tokens...                      -> ok 1 | ok 0   no float16 field of the value holds an exact tie (no_f16_tie)
      nanc <id> <hex|->                        -> ok 1 | ok 0 | err <class>   every decoded float16 NaN is canonical
-     oser <c|cpp|py> <little> <setzeros> <asserts> <id> <cap_bytes> <fill> tokens...   -> like `ser`, answered by the CODE-SHAPED
-                                              observable ObsC03.obs_ser (walker over the shipped primitive models; flags are 0|1)
-     odes <c|cpp|py> <little> <setzeros> <asserts> <id> <prior> <hex|->                -> like `des`, answered by ObsC03.obs_des
+     oser <c|cpp|py> <a|b|l> <omit_float> <asserts> <id> <cap_bytes> <fill> tokens...  -> like `ser`, answered by the TARGET-SHAPED
+                                              observable ObsC03.obs_ser (target_endianness any|big|little; flags are 0|1)
+     odes <c|cpp|py> <a|b|l> <omit_float> <asserts> <id> <prior> <hex|->               -> like `des`, answered by ObsC03.obs_des
+                                              (consumed size `-` for Python, which reports none)
    `ser` is spec_ser TgC = spec_ser TgCpp (the specification), `pser` spec_ser TgPy. *)
 open Model
+(* the extracted model defines Coq's `string` (used by the translated is_zero_cost_primitive); keep OCaml's for the front end *)
+type string = Stdlib.String.t
 
 exception Bad of string
 
@@ -200,7 +203,8 @@ let handle (line : string) : string =
     | "oser" | "odes" ->
       let tg = (match toks.(1) with "c" -> TgC | "cpp" -> TgCpp | "py" -> TgPy | _ -> raise (Bad "invalid_arg")) in
       let flag i = (match toks.(i) with "1" -> true | "0" -> false | _ -> raise (Bad "invalid_arg")) in
-      let o = mk_options (flag 2) (flag 3) (flag 4) in
+      let e = (match toks.(2) with "a" -> EndAny | "b" -> EndBig | "l" -> EndLittle | _ -> raise (Bad "invalid_arg")) in
+      let o = mk_options e (flag 3) (flag 4) in
       let t = find_type toks.(5) in
       if toks.(0) = "oser" then begin
         let cap = int_of_string toks.(6) in
@@ -230,7 +234,9 @@ let handle (line : string) : string =
          | Ok (v, consumed) ->
            let buf = Buffer.create 64 in
            show_val t v buf;
-           Printf.sprintf "ok %d%s" (int_of_nat consumed) (Buffer.contents buf))
+           (match consumed with
+            | Some c -> Printf.sprintf "ok %d%s" (int_of_nat c) (Buffer.contents buf)
+            | None -> Printf.sprintf "ok -%s" (Buffer.contents buf)))
       end
     | "tief" ->
       let t = find_type toks.(1) in
